@@ -46,6 +46,17 @@ func corpusC08() []*case08 {
 			{Op: "rbrealloc", Restores: &one},
 			{Op: "realloc", I: 0, Req: &reqJ{Keep: true, MR: 50, CR: nano}},
 			{Op: "drop", Idx: []int{0}}}},
+		// another plugin fails in the commit: cobalt rolls cpumem back with the Before it reported
+		// (escaped mutant: Before aliased the updated usage)
+		{Prop: "C08", Cap: numaNode4(), Ops: []op08{
+			{Op: "alloc", K: 2, Req: &reqJ{Bind: true, CR: nano, MR: 100}},
+			{Op: "alloc", K: 1, Req: &reqJ{CR: nano / 2, MR: 300}, Fail: true},
+			{Op: "drop", Idx: []int{0}, Fail: true},
+			{Op: "realloc", I: 1, Req: &reqJ{Keep: true, MR: 50}, Fail: true},
+			{Op: "realloc", I: 1, Req: &reqJ{Keep: true, MR: 50}},
+			{Op: "rbrealloc", Fail: true},
+			{Op: "drop", Idx: []int{1}, Direct: true},
+			{Op: "drop", Idx: []int{0}}}},
 	}
 }
 
